@@ -475,6 +475,10 @@ pub fn trace_history<T: Label>(c: &HCase) -> (u64, u64) {
 		for i in 0..=(w.len() as u64 + 1) {
 			add(w.get(i as PeriodType).map_or(u64::MAX, |x| x.id() as u64));
 		}
+		// Index has its own code path (and its own branch under unsafe_performance); in range only, it panics outside
+		for i in 0..w.len() {
+			add(w[i].id() as u64 ^ 0x2000);
+		}
 		for x in w.iter() {
 			add(x.id() as u64);
 		}
